@@ -48,3 +48,12 @@ LEVEL_TEXT = ("Kernel-checked theorems for every rank and every size vector: ite
               "a size is zero, and None forever after; the labelled iproduct! enumeration is the same list; keys = 0..n; newtype "
               "index conversions are identities. The model is tied to the code by an exhaustive run over all 258 shapes x 3 "
               "families/index types, which also evaluates the lexList predicate on the implementation's own output.")
+
+
+LEVEL_NOTE = ("Trusted: Lean kernel (leanchecker re-check in thorough); axioms propext/Classical.choice/Quot.sound only (audited every run); "
+              "the hand-written model of the array types (SLV/Model/MArr*.lean: nested Vec storage, MultiRange odometer, Iter/IterMut state "
+              "machines, constructors with panics as none) tied to /repo by the array-program correspondence check (harness_arr runs the "
+              "real types for every shape/family/index kind and the Lean driver compares observation traces token by token); itertools' "
+              "iproduct! and Vec are modelled, not verified; no translation tie for this part.")
+TECHNIQUE = ("Lean 4 refinement theorems (nested model = flat-vector spec for every program; odometer = lexicographic product for every "
+             "rank and size) + trace-level correspondence check against the Rust types")
